@@ -119,4 +119,28 @@ CHECKS = {
           'identity of the class, descriptor kinds, __name__/__qualname__/__doc__/signature/__wrapped__, untouched inherited members, idempotence and the O0 / -O identities are asserted.',
   'note': 'Bounded exploration (<= 5 members per class, 2 nesting levels). Idempotence is judged on the function objects inside descriptors (beartype rebuilds descriptor objects).',
  },
+ 'C07': {
+  'technique': 'property-based testing: generated modules, differential between string / postponed annotations and eagerly evaluated ones',
+  'text': 'A module is generated per case (hint wrapper x placement x spelling x definition order) and executed under a registered module name; for every probe '
+          'object the string-literal and from-__future__ variants must give the verdict and violation class of the variant with evaluated annotations, at module level, '
+          'in methods of classes nested 0-2 deep (self reference, shadowing class-level alias, sibling class of the nested body) and in closures 1-2 deep; a call '
+          'before the referenced class exists must raise a beartype forward-reference exception and the same wrapper must work once it is defined.',
+  'note': 'Finite product space sampled by Hypothesis (12 placements x 11 wrappers x 3 orders x 2 spellings); only names Python itself resolves for evaluated annotations are generated.',
+ },
+ 'C14': {
+  'technique': 'property-based testing over histories: forked pristine process per history, differential against a history-free sibling fork',
+  'text': 'Histories of public operations (checks, subhint queries, TypeHint comparisons, decorate-and-call, gc, cache clearing, forward references defined later, '
+          '(re)definition of same-named classes incl. hot-reload chains of decorated generations) over look-alike hints (Literal[1]/[True], 1/True/1.0 metadata, '
+          'unhashable Annotated, same-named classes) are followed by a final query whose answer must equal the answer of the same query in a fresh process and be idempotent.',
+  'note': '~360 histories in the quick tier (two forks each; fork throughput of the sandbox is the limit); answers compared as verdict / exception class.',
+ },
+ 'C15': {
+  'technique': 'schedule fuzzing with a controlled scheduler: sys.settrace yield points + cooperative locks, Hypothesis-generated and enumerated one-preemption schedules, sequential-order oracle',
+  'text': '2-3 threads of public operations run under a scheduler that owns every context switch (line events inside beartype are yield points; beartype\'s locks '
+          'are cooperative wrappers installed before beartype is imported, so blocking yields to the scheduler and all-blocked is reported as deadlock). Schedules are '
+          'lists of run lengths drawn by Hypothesis or one-preemption sweeps over the first thread; each run uses fresh keys so that it exercises first-time cache paths. '
+          'Results must match a sequential order, singletons must be shared across threads, and no exception or deadlock may occur.',
+  'note': 'Bounded schedule space (<= 6 preemptions, line granularity; opcode-level tracing crashes CPython 3.12.1 and is off). ~80 cases x 4-40 schedules quick. '
+          'Scheduler timeouts and child crashes are counted as inconclusive, never as violations.',
+ },
 }
